@@ -19,7 +19,7 @@ package table
 //@   && t.numIn.ref != t.numInvalid.ref && t.numIn.ref != t.numOutOfOrder.ref && t.numIn.ref != t.numBlacklist.ref && t.numIn.ref != t.numUnroutable.ref
 //@   && t.numInvalid.ref != t.numOutOfOrder.ref && t.numInvalid.ref != t.numBlacklist.ref && t.numInvalid.ref != t.numUnroutable.ref
 //@   && t.numOutOfOrder.ref != t.numBlacklist.ref && t.numOutOfOrder.ref != t.numUnroutable.ref && t.numBlacklist.ref != t.numUnroutable.ref
-//@   && t.bad != nil && t.bad.In != nil
+//@   && t.bad != nil && t.bad.In != nil && !closed(t.bad.In)
 //@ spec accepts(r Route, name bytes) := matchSpec(routeMatcher(r), name)
 
 // ---------------------------------------------------------------- DispatchAggregate (C01, C11)
@@ -194,6 +194,7 @@ package table
 //@ func (table *Table) DelAggregator(id int) error
 //@   property C18
 //@   requires table.published() && !table.Mutex.held && id >= 0
+//@   requires forall j int :: 0 <= j && j < len(table.conf().aggregators) ==> table.conf().aggregators[j] != nil && table.conf().aggregators[j].shutdown != nil && !closed(table.conf().aggregators[j].shutdown)
 //@   let c := table.conf()
 //@   let n := len(table.conf().aggregators)
 //@   modifies *
